@@ -541,6 +541,33 @@ class IntervalEval:
                 nhi = ra[1] + rb[1] if op == 'Add' else ra[1] - rb[0]
                 if tlo <= nlo and nhi <= thi:
                     return ('iv', nlo, nhi)
+            # low-bit masks and power-of-two divisions / shifts of a non-negative range that stays inside one block
+            if op == 'BitAnd' and (a[0] == 'k' or b[0] == 'k'):
+                m_, r_, o_ = (a[1][1], rb, b) if a[0] == 'k' else (b[1][1], ra, a)
+                if isinstance(m_, int) and m_ >= 0 and (m_ & (m_ + 1)) == 0 and r_[0] >= 0:
+                    blk = m_ + 1
+                    if r_[0] // blk == r_[1] // blk:
+                        base = (r_[0] // blk) * blk
+                        if o_[0] == 'lin':
+                            return ('lin', o_[1] - base)
+                        return ('iv', r_[0] - base, r_[1] - base)
+                    return ('iv', 0, m_)
+                return None
+            if op in ('Shr', 'Div') and b[0] == 'k' and isinstance(b[1][1], int) and ra[0] >= 0:
+                d_ = (1 << b[1][1]) if op == 'Shr' else b[1][1]
+                if d_ > 0:
+                    qlo, qhi = ra[0] // d_, ra[1] // d_
+                    if qlo == qhi:
+                        return ('k', C(qlo, ty))
+                    return ('iv', qlo, qhi)
+            if op == 'Rem' and b[0] == 'k' and isinstance(b[1][1], int) and b[1][1] > 0 and ra[0] >= 0:
+                d_ = b[1][1]
+                if ra[0] // d_ == ra[1] // d_:
+                    base = (ra[0] // d_) * d_
+                    if a[0] == 'lin':
+                        return ('lin', a[1] - base)
+                    return ('iv', ra[0] - base, ra[1] - base)
+                return ('iv', 0, d_ - 1)
             return None
         if k == 'un':
             a = self.ev(x[2])
